@@ -45,7 +45,8 @@ def gen_mol(rng):
     n = rng.randint(1, 9)
     keys = rng.sample(range(-5, 40), n)
     mode = rng.choice(['perm', 'perm', 'none', 'partial', 'dup', 'same'])
-    ids = list(range(1, n + 1))
+    base = rng.choice([1, 1, 0, 0, 5])                # atom ids of the input need not start at 1 (0-based numbering exists)
+    ids = list(range(base, n + base))
     rng.shuffle(ids)
     with_charge = rng.random() < 0.7
     with_mass = with_charge and rng.random() < 0.5
@@ -58,9 +59,9 @@ def gen_mol(rng):
         elif mode == 'partial':
             aid = ids[j] if rng.random() < 0.6 else None
         elif mode == 'dup':
-            aid = rng.randint(1, max(1, n // 2))
+            aid = rng.randint(base, max(base, n // 2))
         else:
-            aid = j + 1
+            aid = j + base
         a = {'key': k, 'atomid': aid, 'atype': rng.choice(ATYPES), 'resid': rng.choice([1, 2, 3, 10, 12, 100]),
              'resname': rng.choice(RESNAMES), 'atomname': rng.choice(ANAMES), 'charge_group': rng.randint(1, 12)}
         if with_charge:
